@@ -14,8 +14,8 @@ MCCfgs == {c \in [minPrice : MinPrices, minLimit : MinLimits, perByte : PerBytes
               /\ (c.minPrice * c.num) \div c.den >= 1
               /\ c.maxGas >= c.minLimit}
 \* built-in calls carry call data "ESDTBurn[@arg..]" in the harness, hence data lengths >= 8
-MCTxs == [price : Prices, gl : GasLimits, dl : DataLens, value : Values, bi : {0}]
-         \cup [price : BiPrices, gl : BiGasLimits, dl : BiDataLens, value : {0}, bi : BuiltIns]
+MCTxs == [price : Prices, gl : GasLimits, dl : DataLens, value : Values, bi : {0}, scr : BOOLEAN]
+         \cup [price : BiPrices, gl : BiGasLimits, dl : BiDataLens, value : {0}, bi : BuiltIns, scr : {FALSE}]
 
 \* price modifiers num/den (cfg files cannot contain tuples)
 ModsQuick    == {<<1, 1>>, <<1, 2>>, <<1, 3>>, <<2, 3>>}
